@@ -119,7 +119,14 @@ def to_plain(x):
                 return to_plain(tb())
             except TypeError:
                 pass
-        return to_plain(x())  # public conversion
+        # second choice, still non-loading and public: the library's JSON encoder
+        try:
+            from synced_collections.utils import SyncedCollectionJSONEncoder
+
+            return json.loads(json.dumps(x, cls=SyncedCollectionJSONEncoder))
+        except Exception:  # noqa: BLE001
+            pass
+        return to_plain(x())  # public conversion (reloads)
     if isinstance(x, dict):
         return {k: to_plain(v) for k, v in x.items()}
     if isinstance(x, list):
